@@ -2,6 +2,8 @@ pub mod common;
 pub mod c01;
 pub mod c07;
 pub mod c11;
+pub mod c13;
+pub mod c18;
 pub mod manip;
 
 use crate::engine::Monitor;
@@ -14,5 +16,7 @@ pub fn all() -> Vec<Box<dyn Monitor>> {
         Box::new(manip::Manip(manip::Which::C06)),
         Box::new(c07::C07),
         Box::new(c11::C11),
+        Box::new(c13::C13),
+        Box::new(c18::C18),
     ]
 }
